@@ -10,6 +10,7 @@ t_drop = tmpl.pick(tmpl.drop_case, LABELS)
 def templates(tier, seed):
     ts = []
     for N in ((2,) if tier == "quick" else (1, 2, 3)):
+        ts.append(Template(f"series_Int/rd=all/coerce=0/N={N}", t_drop, ("series_Int", N, dict(rd="all", coerce=False))))
         for shape in ("series", "column", "frame", "frame_wide", "frame_joint", "frame_index", "model"):
             for rd in ("all", "exclude_first", "exclude_last"):
                 if shape == "model" and rd != "all":
@@ -18,6 +19,10 @@ def templates(tier, seed):
                     if tier == "quick" and coerce and (rd != "all" or shape in ("frame_wide", "frame_index")):
                         continue
                     ts.append(Template(f"{shape}/rd={rd}/coerce={int(coerce)}/N={N}", t_drop, (shape, N, dict(rd=rd, coerce=coerce))))
+    # violations that are not attributable to rows are still raised
+    for which in tmpl.UNUSUAL:
+        if which.startswith("drop_"):
+            ts.append(Template(f"NR/{which}/N=2", tmpl.pick(tmpl.unusual_case, LABELS), (which, 2)))
     import tmpl_pl
 
     ts += [Template(tid, tmpl.pick(fn, LABELS), args) for tid, fn, args in tmpl_pl.drop_cases(tier)]
